@@ -83,14 +83,19 @@ def build(scn, env):
     listener = Recorder()
     classes = {}
 
-    def mk_cb(vp, raising):
+    def mk_cb(vp, raising, fut=0):
         gen = env.gen
 
         def cb():
             rec('cb', vp, gen)
             if raising:
                 raise Injected('cb')
-        return cb
+
+        async def acb():                      # a coroutine callback: samples on entry and after an await
+            rec('cb', vp, gen)
+            await env.futs[fut]
+            rec('cb.1', vp, gen)
+        return acb if fut else cb
     env.mk_cb = mk_cb
 
     def mk_step(vp, si, st):
@@ -104,7 +109,15 @@ def build(scn, env):
                 elif o['op'] == 'launch':
                     self.launch(classes[o['arg']])
                 elif o['op'] == 'soon':
-                    self.call_soon(mk_cb(vp, o['arg'] == 1))
+                    self.call_soon(mk_cb(vp, o['arg'] == 1, o.get('x', 0)))
+                elif o['op'] == 'osoon':
+                    env.procs[o['arg']].call_soon(mk_cb(o['arg'], False, o.get('x', 0)))
+                elif o['op'] == 'ofail':
+                    env.procs[o['arg']].fail(Injected('reported by process %d' % vp), None)
+                elif o['op'] == 'okill':
+                    env.procs[o['arg']].kill()
+                elif o['op'] == 'opause':
+                    env.procs[o['arg']].pause()
                 elif o['op'] == 'nest':
                     q = classes[o['arg']]()
                     env.nested.append(q)
